@@ -11,15 +11,26 @@ race-free between point operations and never self-deadlock (DESIGN 3/C10).  Two 
     not agree are a machinery failure (exit 2), never a violation -- unless the behaviour itself was already
     rejected by a trace specification and reproduced: a reproduced hang or race stands whatever the table says.
     The same exploration lists the point operations made of several critical sections (NoSplit): a hint for (A3).
+    The lock may be a sync.Mutex, the mutex of a sync.Cond or a sync.RWMutex (RLock = SHARED acquisition: shared holders
+    do not exclude each other, so a step that writes under a shared hold races with every other shared holder; an
+    announced writer keeps new readers out, so a nested RLock can deadlock against a writer; RLock -> Lock on one
+    thread is a self-deadlock).  Methods that take ANOTHER instance of their own type (PutAll(other)) are explored with
+    the peer bound to a second instance, to the receiver itself (x.m(x): NoSelfDeadlock) and crosswise on two threads
+    (a.m(b) against b.m2(a): NoMutualDeadlock over lock-order edges receiver -> argument).  The semantics of the shared
+    mode and of peers is itself exercised on every run: TLC must produce exactly the textbook verdicts on a small
+    fixed table (spec/LockDiscipline_selftest.json).
 (A1) Trace_LockDiscipline / footprint: each public method (reflection: the methods the COMPILED type has, which
     must be the table's) is called while the harness holds the instance lock (reflect + unsafe on the private
-    lock field): it parks on that lock iff the table says it takes it.  The table is code-derived: a footprint the
-    table does not explain is a machinery failure.
+    lock field): it parks on that lock iff the table says it takes it; a readers-writer lock is also held in SHARED
+    mode: then exactly the methods the table says take it in exclusive mode park.  The table is code-derived: a
+    footprint the table does not explain is a machinery failure.  A lock of a kind the extraction does not know is not
+    an error: the type stays in the model as one that takes no lock, and what TLC then predicts must be confirmed.
 (A2) Trace_LockDiscipline / watchdog: each public method in every state its helper paths depend on (populated with
     an existing key; empty; growing: 170 fresh keys across the re-hash thresholds; full: SetMax / capacity 3 in force
     and reached, fresh and existing keys alternating): returned | panicked | timeout; the specification has no action
-    for timeout, nor for a lock that stayed taken.  A hang anywhere ends as a recorded Timeout event, never as a
-    driver timeout (hangs are capped per type).
+    for timeout, nor for a lock that stayed taken.  A method taking another instance of its own type is also handed
+    its own receiver (state "self") and run crosswise on two instances from two goroutines in lockstep rounds (state
+    "cross").  A hang anywhere ends as a recorded Timeout event, never as a driver timeout (hangs are capped per type).
 (A3) Trace_Linearize: thousands of concurrent histories per type in four shapes (mix: 2-4 goroutines x 3-6 random
     point operations on three hot keys sharing a bucket; duel: a populated instance and the same one or two
     operations meeting themselves, mostly in lockstep rounds; grow: the default table re-hashing under lookups; block:
@@ -68,7 +79,7 @@ def events(outdir, name):
 
 def parse_predictions(out):
     flat = re.sub(r"\s+", " ", out)
-    dead, races, other, splits = set(), set(), set(), set()
+    dead, races, other, splits, mutual = set(), set(), set(), set(), set()
     for m in re.finditer(r'<<\s*"PRED",\s*"(\w+)",\s*"(\w+)",\s*(.*?)>>', flat):
         kind, ty, rest = m.group(1), m.group(2), m.group(3)
         names = re.findall(r'"(\w+)"', rest)
@@ -78,9 +89,37 @@ def parse_predictions(out):
             races.add((ty,) + tuple(sorted(names[:2])))
         elif kind == "SPLIT":
             splits.add((ty, names[0]))
+        elif kind == "MUTUALDEADLOCK" and len(names) >= 3:      # scenario kind ("pair": one instance; "cross": a.m1(b) || b.m2(a)), m1, m2
+            mutual.add((ty, names[0]) + tuple(sorted(names[1:3])))
         else:
             other.add((kind, ty, tuple(names)))
-    return dead, races, other, splits
+    return dead, races, other, splits, mutual
+
+
+# What TLC must say about spec/LockDiscipline_selftest.json (one readers-writer type RW: Get / Size read under a shared
+# hold, GetLRU WRITES under a shared hold, Put writes under the exclusive lock, Contains takes the shared lock and calls
+# Get (nested shared), Upgrade takes shared then exclusive, PutAll(other) holds its own lock while calling other.Size()).
+SELFTEST_EXPECTED = dict(
+    dead={("RW", "Upgrade"), ("RW", "PutAll")},
+    races={("RW", "GetLRU", "GetLRU"), ("RW", "Get", "GetLRU"), ("RW", "Contains", "GetLRU")},
+    mutual={("RW", "pair", "Contains", "Put"), ("RW", "cross", "PutAll", "PutAll")},
+    other=set())
+
+
+def spec_selftest(run, workers):
+    """the semantics of LockDiscipline.tla (shared mode, writer preference, peers) gives the textbook verdicts"""
+    r = run.tlc("MC_LockDiscipline", cfg="MC_LockDiscipline_predict.cfg", workers=1, timeout=600, env={"LOCKTABLE": "LockDiscipline_selftest.json"})
+    if not r["clean"] or "generated" not in r:
+        raise vf.MachineryError("self-test of LockDiscipline.tla did not run:\n" + vf.tail(r["out"], 40))
+    dead, races, other, splits, mutual = parse_predictions(r["out"])
+    got = dict(dead=dead, races=races, mutual=mutual, other=other)
+    if got != SELFTEST_EXPECTED:
+        raise vf.MachineryError("LockDiscipline.tla does not give the expected verdicts on the self-test table: got %s" % got)
+    run.mc_runs.append(dict(module="MC_LockDiscipline", cfg="MC_LockDiscipline_predict.cfg", table="LockDiscipline_selftest.json", states=r["distinct"],
+                            transitions=r["generated"], wall_s=r["wall"],
+                            expected_predictions_produced={k: sorted(map(list, v)) for k, v in got.items()}))
+    vf.log("MC %-28s %-28s states=%d (semantics self-test: %d expected predictions produced, nothing else)"
+           % ("MC_LockDiscipline", "selftest table", r["distinct"], sum(len(v) for v in got.values())))
 
 
 def model_check(run, workers):
@@ -94,7 +133,7 @@ def model_check(run, workers):
     rec["actions_never_taken"] = zero
     vf.log("MC %-28s %-28s states=%d transitions=%d %.1fs %s" % ("MC_LockDiscipline", cfg, r["distinct"], r["generated"], r["wall"],
                                                              "clean" if r["clean"] else "REFUTED"))
-    dead, races, other = set(), set(), set()
+    dead, races, other, mutual = set(), set(), set(), set()
     splits = parse_predictions(r["out"])[3]
     if r["clean"]:
         if zero:
@@ -111,17 +150,17 @@ def model_check(run, workers):
         r2 = run.tlc("MC_LockDiscipline", cfg="MC_LockDiscipline_predict.cfg", workers=workers, timeout=3000)
         if not r2["clean"]:
             raise vf.MachineryError("prediction run of MC_LockDiscipline failed:\n" + vf.tail(r2["out"], 40))
-        dead, races, other, splits = parse_predictions(r2["out"])
-        if not (dead or races or other):
+        dead, races, other, splits, mutual = parse_predictions(r2["out"])
+        if not (dead or races or other or mutual):
             raise vf.MachineryError("TLC refuted %s but the prediction run lists nothing" % m.group(1))
-        rec["predicted"] = dict(self_deadlocks=sorted(map(list, dead)), data_races=len(races), other=sorted(map(str, other)))
+        rec["predicted"] = dict(self_deadlocks=sorted(map(list, dead)), data_races=len(races), mutual_deadlocks=sorted(map(list, mutual)), other=sorted(map(str, other)))
         run.mc_states += r2["distinct"]
         run.mc_transitions += r2["generated"]
-        vf.log("PREDICTED by TLC on the extracted table: %d self-deadlocks %s, %d racing pairs of point operations, %d other"
-               % (len(dead), sorted(dead)[:6], len(races), len(other)))
+        vf.log("PREDICTED by TLC on the extracted table: %d self-deadlocks %s, %d racing pairs of point operations, %d pairs of calls waiting for each other %s, %d other"
+               % (len(dead), sorted(dead)[:6], len(races), len(mutual), sorted(mutual)[:4], len(other)))
     rec["point_operations_made_of_several_critical_sections"] = sorted(map(list, splits))
     run.mc_runs.append(rec)
-    return dead, races, other, splits
+    return dead, races, other, splits, mutual
 
 
 def validate_past_unconfirmed(run, outdir, meta, deferred, what, attempts=4):
@@ -166,8 +205,9 @@ def body(run):
     th = run.thorough()
     w = run.pick(4, 16)
     # ---- the table of the tree under test -> TLC constant
+    spec_selftest(run, w)
     run.drive("c10", args={"mode": "table"})
-    dead, races, other, splits = model_check(run, w)
+    dead, races, other, splits, mutual = model_check(run, w)
     if other:
         raise vf.MachineryError("TLC predicts lock-order or leaked-lock defects the driver has no dynamic witness for: %s" % sorted(other)[:5])
 
@@ -206,32 +246,50 @@ def body(run):
                                                       rejected=len(run.violations) - before)
     run.extra["directed_histories_for_operations_of_several_critical_sections"] = directed
     # static prediction and dynamic outcome must agree (after the verdicts: a reproduced hang stands whatever the table says)
-    seen = {(e["t"], e["m"]) for e in events(out, "watchdog") if e.get("ev") == "Outcome" and e.get("out") == "timeout"}
+    hangs = [e for e in events(out, "watchdog") if e.get("ev") == "Outcome" and e.get("out") == "timeout"]
+    seen = {(e["t"], e["m"]) for e in hangs if e.get("on") != "cross"}
+    seen_cross = {(e["t"],) + tuple(sorted([e["m"], e.get("with", "")])) for e in hangs if e.get("on") == "cross"}
+    pred_cross = {(ty, a, b) for ty, kind, a, b in mutual if kind == "cross"}
+    pred_pair = {(ty, a, b) for ty, kind, a, b in mutual if kind != "cross"}
     if seen - dead:
         raise vf.MachineryError("calls that did not return although the extracted table predicts no self-deadlock for them "
                                 "(table incomplete, or the machine stalled): %s" % sorted(seen - dead))
     if dead - seen:
         raise vf.MachineryError("TLC predicts a self-deadlock the real call does not show (table too coarse): %s" % sorted(dead - seen))
+    if seen_cross - pred_cross:
+        raise vf.MachineryError("calls on two instances handed to each other that did not return although the extracted table has no "
+                                "lock-order cycle for them (table incomplete, or the machine stalled): %s" % sorted(seen_cross - pred_cross))
+    if pred_cross - seen_cross:
+        raise vf.MachineryError("TLC predicts that a.m1(b) and b.m2(a) can wait for each other for ever; the crossed calls of this run "
+                                "(two goroutines, lockstep rounds) all came back: unconfirmed %s" % sorted(pred_cross - seen_cross))
 
     # ---- race-detector build: the same programs unstamped, plus the pairs TLC predicted (and two excluded pairs)
     outr, metar = run.drive("c10", args={"mode": "race"}, race=True, gen="race", timeout=2400)
     run.absorb(metar)
     run.validate(outr, metar)
-    pairs = EXCLUDED_PAIRS + ["%s:%s:%s" % p for p in sorted(races)][:run.pick(60, 600)]
+    deadpairs = ["%s:%s:%s:dead" % p for p in sorted(pred_pair)][:20]
+    pairs = EXCLUDED_PAIRS + deadpairs + ["%s:%s:%s" % p for p in sorted(races)][:run.pick(60, 600)]
     outp, metap = run.drive("c10", args={"mode": "race", "pairs": "+".join(pairs)}, race=True, gen="racepair", timeout=2400)
     run.absorb(metap)
     run.validate(outp, metap)
     confirmed, excluded = set(), 0
+    hung_pairs = {(e.get("t"),) + tuple(sorted([e.get("a", ""), e.get("b", "")])) for e in events(outp, "racepair") if e.get("ev") == "Pair" and e.get("out") == "timeout"}
     for e in events(outp, "racepair") + events(outr, "race"):
         if e.get("ev") == "Race":
             confirmed.add((e.get("t"),) + tuple(sorted([e.get("a", ""), e.get("b", "")])))
             if (e.get("t"), e.get("a"), e.get("b")) in {tuple(x.split(":")) for x in EXCLUDED_PAIRS} | {(x.split(":")[0], x.split(":")[2], x.split(":")[1]) for x in EXCLUDED_PAIRS}:
                 excluded += 1
-    asked = {tuple([p.split(":")[0]] + sorted(p.split(":")[1:])) for p in pairs[len(EXCLUDED_PAIRS):]}
+    asked = {tuple([p.split(":")[0]] + sorted(p.split(":")[1:])) for p in pairs[len(EXCLUDED_PAIRS) + len(deadpairs):]}
     unconfirmed = sorted(asked - confirmed)
     run.extra["static_predictions"] = dict(self_deadlocks=sorted(map(list, dead)), racing_pairs=len(races), racing_pairs_run=len(asked),
                                            racing_pairs_confirmed_by_the_race_detector=len(asked & confirmed), unconfirmed=[list(x) for x in unconfirmed[:20]])
     run.extra["races_outside_the_property_observed"] = excluded
+    run.extra["static_predictions"]["calls_waiting_for_each_other"] = dict(
+        crossed_on_two_instances=sorted(map(list, pred_cross)), on_one_instance=sorted(map(list, pred_pair)),
+        confirmed_by_a_hang=sorted(map(list, (pred_cross & seen_cross) | (pred_pair & hung_pairs))))
+    if pred_pair - hung_pairs:
+        raise vf.MachineryError("TLC predicts pairs of calls on one instance that can wait for each other for ever; hammering them did not "
+                                "produce the hang: unconfirmed %s" % sorted(pred_pair - hung_pairs)[:8])
     if unconfirmed:
         raise vf.MachineryError("%d of %d predicted racing pairs were not confirmed: " % (len(unconfirmed), len(asked)) +"TLC predicts data races on the extracted table that the race detector does not show: %s" % unconfirmed[:8])
 
